@@ -73,7 +73,7 @@ def offline_recheck(run, samples, spec_by_unit):
             obs = s.get("observed", "")
             if kind == "err" and not obs.startswith("Err("):
                 bad += 1
-            if kind != "err" and not obs.startswith("Ok(" + spec.variants[idx].ident):
+            if kind != "err" and not obs.startswith("Ok(" + spec.variants[idx].ident.replace("r#", "")):
                 bad += 1
                 run.violation("offline:wrong-variant", "offline re-check: input %r on %s observed %s, python model says %s"
                               % (s["input"], unit, obs, want), detail={"sample": s})
@@ -103,8 +103,12 @@ def check(run):
         specs.append(strgen.build(r, "R%d" % i, ["EnumString"], allow_braces=True))
     units = []
     spec_by_unit = {}
+    from . import c18
     for s in specs:
-        u = shards.Unit("u_" + s.name.lower(), glue(s), meta={"enum_src": s.render()}, sig=s.signature(), head=strgen.CAPTURE_HEAD)
+        if any(v.default and not v.disabled for v in s.variants) and r.random() < 0.15:
+            # custom error attributes next to a catch-all variant: no error can occur, both impls keep strum::ParseError
+            s.parse_err = ("MyErr", "my_err")
+        u = shards.Unit("u_" + s.name.lower(), glue(s), meta={"enum_src": s.render()}, sig=s.signature(), head=(strgen.CAPTURE_HEAD, c18.ERR_HEAD))
         units.append(u)
         spec_by_unit[u.name] = s
     run.rule = RULE
